@@ -1,5 +1,6 @@
 import RV.C09.LitLemmas
 import RV.C09.DurLemmas
+import RV.C09.DateLemmas
 /-
   C09 — "Literal ↔ Python value mapping is faithful and normalisation is idempotent":
   property statements (each first as `def Statement_… : Prop` at full strength) and theorems.
@@ -195,7 +196,74 @@ theorem duration_printer_total : Statement_duration_printer_total := by
   by_cases h1 : us < 0 <;> by_cases h2 : 0 < us <;> by_cases h3 : y * 12 + m < 0 <;>
     cases hh : (isDur && !(y == 0 && m == 0)) <;> simp [h1, h2, h3] <;> (try split) <;> simp <;> omega
 
+/-! ## 6. dates -/
+
+/-- `Literal(date(y, m, d))` (any date CPython can hold): datatype xsd:date, a lexical form in the XSD
+    lexical space, and `parse_xsd_date` reads it back as the same date -/
+def Statement_date_roundtrip : Prop :=
+  ∀ y m d, validYMD y m d = true →
+    ∃ l, mkValue (.date y m d) none = some l ∧ l.dt = some .date ∧ Spec.validLex .date l.lex = true ∧
+      castLex l.dt l.lex = some (.date y m d)
+
+theorem date_roundtrip : Statement_date_roundtrip := by
+  intro y m d hv
+  obtain ⟨h1, h2⟩ := parseXsdDate_dateIso hv
+  exact ⟨⟨dateIso y m d, some .date, some (.date y m d), none⟩, rfl, rfl, h2, by simpa [castLex, Dt.conv] using h1⟩
+
+/-- `Literal(time(...))` / `Literal(datetime(...))`: datatype, a lexical form in the XSD lexical space and
+    the same value read back — for every Python time / datetime, naive or aware (utcoffset strictly inside ±24 h) -/
+def Statement_time_roundtrip : Prop :=
+  ∀ h mi s us (tz : Option Int), ValidTime h mi s us →
+    (match tz with | none => True | some off => -86400000000 < off ∧ off < 86400000000) →
+    ∃ l, mkValue (.time h mi s us tz) none = some l ∧ l.dt = some .time ∧ Spec.validLex .time l.lex = true ∧
+      castLex l.dt l.lex = some (.time h mi s us tz)
+
+def Statement_datetime_roundtrip : Prop :=
+  ∀ y m d h mi s us (tz : Option Int), validYMD y m d = true → ValidTime h mi s us →
+    (match tz with | none => True | some off => -86400000000 < off ∧ off < 86400000000) →
+    ∃ l, mkValue (.datetime y m d h mi s us tz) none = some l ∧ l.dt = some .dateTime ∧
+      Spec.validLex .dateTime l.lex = true ∧ castLex l.dt l.lex = some (.datetime y m d h mi s us tz)
+
+/-- proved for naive values and for the utcoffsets XSD can write (whole minutes within ±14:00) -/
+theorem time_roundtrip_partial : ∀ h mi s us (tz : Option Int), ValidTime h mi s us → XsdTz tz →
+    ∃ l, mkValue (.time h mi s us tz) none = some l ∧ l.dt = some .time ∧ Spec.validLex .time l.lex = true ∧
+      castLex l.dt l.lex = some (.time h mi s us tz) := by
+  intro h mi s us tz ⟨h1, h2, h3, h4⟩ htz
+  exact ⟨⟨timeIso h mi s us tz, some .time, some (.time h mi s us tz), none⟩, rfl, rfl,
+    timeLex_timeIso h1 h2 h3 h4 htz,
+    by simpa [castLex, Dt.conv] using pyTimeFromIso_timeIso h1 h2 h3 h4 (TzOk_of_XsdTz htz)⟩
+
+theorem datetime_roundtrip_partial : ∀ y m d h mi s us (tz : Option Int), validYMD y m d = true →
+    ValidTime h mi s us → XsdTz tz →
+    ∃ l, mkValue (.datetime y m d h mi s us tz) none = some l ∧ l.dt = some .dateTime ∧
+      Spec.validLex .dateTime l.lex = true ∧ castLex l.dt l.lex = some (.datetime y m d h mi s us tz) := by
+  intro y m d h mi s us tz hv ⟨h1, h2, h3, h4⟩ htz
+  exact ⟨⟨datetimeIso y m d h mi s us tz, some .dateTime, some (.datetime y m d h mi s us tz), none⟩, rfl, rfl,
+    dateTimeLex_datetimeIso hv h1 h2 h3 h4 htz,
+    by simpa [castLex, Dt.conv] using pyDateTimeFromIso_datetimeIso hv h1 h2 h3 h4 (TzOk_of_XsdTz htz)⟩
+
+/-- the value is still read back for whole-minute offsets up to ±23:59, which XSD cannot write (finding C09-K4) -/
+theorem time_readback_wide : ∀ h mi s us (tz : Option Int), ValidTime h mi s us → TzOk tz →
+    pyTimeFromIso (timeIso h mi s us tz) = some (.time h mi s us tz) :=
+  fun _ _ _ _ _ ⟨h1, h2, h3, h4⟩ htz => pyTimeFromIso_timeIso h1 h2 h3 h4 htz
+
+/-- the code falsifies the full statement: a utcoffset of one second is written `+00:00:01` (finding C09-K4) -/
+theorem time_roundtrip_witness : ¬ Statement_time_roundtrip := by
+  intro h
+  obtain ⟨l, hl, _, hv, _⟩ := h 0 0 0 0 (some 1000000) ⟨by decide, by decide, by decide, by decide⟩ (by decide)
+  have : mkValue (.time 0 0 0 0 (some 1000000)) none =
+      some ⟨"00:00:00+00:00:01".toList, some .time, some (.time 0 0 0 0 (some 1000000)), none⟩ := by decide
+  rw [this] at hl
+  cases hl
+  revert hv
+  decide
+
 /-! ## Non-vacuity: the hypotheses are met by concrete, non-trivial instances -/
+
+example : XsdTz (some (-50400000000)) ∧ ¬ XsdTz (some 1000000) ∧ TzOk (some 86340000000) := by
+  simp only [XsdTz, TzOk]; decide
+example : validYMD 2024 2 29 = true ∧ validYMD 1900 2 29 = false ∧ dateIso 33 1 1 = "0033-01-01".toList := by decide
+
 
 example : durationIso (-2) 10 (-273906700000) true = some "-P1Y2M3DT4H5M6.7S".toList ∧
     tdInRange (-273906700000) = true := by decide
